@@ -561,6 +561,17 @@ func c03Exec(tr *verifh.T, c verifh.Case, hold bool) (recs [][2][]string, live [
 			}
 			e.t = t
 			r.op(a, "ok")
+		case a[0] == "delfile" && len(a) == 1:
+			// the download entry disappears (TorrentArchive.DeleteTorrent / download-dir cleanup) while calls may be
+			// parked, e.g. right before the commit move. Only an entry that is still in the download state is deleted.
+			if !e.gated || e.t.Complete() {
+				return
+			}
+			if err := e.cads.Download().DeleteFile(e.mi.Digest().Hex()); err != nil {
+				r.op(a, "err")
+				return
+			}
+			r.op(a, "ok")
 		case a[0] == "tornreopen" && len(a) == 2:
 			// a crash left the `_status` sidecar with n bytes (a prefix of its content, or zero padded), then the
 			// process restarts: a new Torrent instance over the same store. Only while the file is in the download
@@ -987,6 +998,25 @@ func TestVerif_C03(t *testing.T) {
 		}
 		rec(nil, depth)
 	}
+	// (b4) the download entry is deleted while the last writer is parked at one of its gates (in particular at
+	// g4, after every piece was verified and right before the move into the cache)
+	for _, np := range []int{1, 2, 3} {
+		blob := c03Blob(2*np - 1)
+		for stop := 0; stop <= 5; stop++ {
+			ops := [][]string{{"op", "metainfo"}}
+			for i := 0; i < np-1; i++ {
+				ops = append(ops, c03Write(i, c03Payload(blob, 2, i, "correct", nil)))
+			}
+			last := np - 1
+			ops = append(ops, []string{"op", "spawn", "w0", strconv.Itoa(last), verifh.Hex(c03Payload(blob, 2, last, "correct", nil))})
+			for j := 0; j < stop; j++ {
+				ops = append(ops, []string{"op", "run", "w0", "1048576"})
+			}
+			ops = append(ops, []string{"op", "obs"}, []string{"op", "delfile"}, []string{"op", "obs"})
+			c03Exec(tr, verifh.Case{Cfg: c03CfgG(blob, 2, true, 0, c03Coarse), Ops: ops}, false)
+			tr.Count("delete_before_commit_cases", 1)
+		}
+	}
 	// (c) random histories: sequential and gated mixes, random blobs and piece lengths
 	r := verifh.NewRand(verifh.Seed(), "c03")
 	kinds := []string{"correct", "correct", "correct", "corrupt", "short", "long", "empty", "other", "random"}
@@ -1032,6 +1062,9 @@ func TestVerif_C03(t *testing.T) {
 			case x < 18:
 				ops = append(ops, []string{"op", "read", strconv.Itoa(idx())}, []string{"op", "has", strconv.Itoa(idx())},
 					[]string{"op", "plen", strconv.Itoa(idx())})
+			case gated && x < 19 && r.Chance(1, 6):
+				ops = append(ops, []string{"op", "delfile"})
+				tr.Count("random_delfile", 1)
 			case gated && x < 19 && r.Chance(1, 3):
 				ops = append(ops, []string{"op", "closefail"})
 				tr.Count("random_closefail", 1)
